@@ -320,6 +320,14 @@ def run(R, tier):
         for kind_, items in ops_:
             R.count(f'd={d}'); R.count('kind=' + kind_); R.count('basis=' + algs.kind(spec))
             t0 = time.time()
+            if rng.random() < 0.25:
+                # a harmless event first: another operator fails (or succeeds) on an operand of the same type - the polarity dual
+                # raises ZeroDivisionError in every algebra with a null pseudoscalar; the inverse must not care
+                try:
+                    R.count('pre-event=polarity')
+                    mk(alg, items).dual(kind='polarity')
+                except Exception:  # noqa
+                    pass
             outcome, xi = oracle(R, alg, spec, items, exact, extra=(rng.random() < p_extra))
             R.count('outcome=' + outcome)
             nontrivial = any(v != 0 for _, v in items)
